@@ -1140,6 +1140,9 @@ def values_correspondence(res, tier):
                            dict(bad, api="compute_correlations", time_order=mode, operator_a=na,
                                 operator_b=nb, initial_state=rname, dt=rig.dt,
                                 process_tensor="exact ancilla qubit (SimpleProcessTensor, no stored dt)"))
+    # explicitly time-dependent system, start_time != 0, closed form (always run)
+    oracle_tdep_start(report)
+    res.count("value:time-dependent system, start_time != 0")
     triples = [(("sigma_y", "sigma_minus", "generic complex"), ("left", "left", "left")),
                (("generic complex", "sigma_y", "sigma_minus"), ("right", "left", "left")),
                (("sigma_minus", "generic complex", "sigma_y"), ("left", "right", "left"))]
@@ -1258,6 +1261,92 @@ def oracle_dt(rig, report):
                     "how": "axes are labelled with dt=0.2 but the propagators use the stored dt"})
 
 
+def oracle_offgrid(report):
+    """float times / float intervals that are NOT on the grid: whatever axis is returned, the entry
+    must be the exact correlation AT the returned times (closed qubit, identity environment)"""
+    import oqupy
+    from scipy.linalg import expm
+    from . import oq
+    n, dt = 6, 0.1
+    h = np.array([[0.9, 0.4 - 0.7j], [0.4 + 0.7j, -0.5]])
+    a = np.array([[0.3 + 0.1j, -0.7j], [0.5, 0.2 - 0.4j]])
+    b = np.array([[0, 0], [1, 0]], dtype=complex)
+    rho0 = np.array([[0.6, 0.1 + 0.25j], [0.1 - 0.25j, 0.4]])
+    system, pt = oqupy.System(h), oq.identity_pt(n, 2, dt)
+
+    def ev(x, t):
+        u = expm(-1j * h * t)
+        return u @ x @ u.conj().T
+    for start in (0.0, 0.37):
+        specs = [(start + 0.12, (start + 0.26, start + 0.53)), ((start + 0.04, start + 0.33), start + 0.48),
+                 (start + 0.2, start + 0.31)]
+        for ta, tb in specs:
+            times, corr = oqupy.compute_correlations(
+                system=system, process_tensor=pt, operator_a=a, operator_b=b, times_a=ta, times_b=tb,
+                time_order="ordered", initial_state=rho0, start_time=start, dt=dt, progress_type="silent")
+            corr = np.asarray(corr)
+            for i, t1 in enumerate(np.atleast_1d(times[0])):
+                for j, t2 in enumerate(np.atleast_1d(times[1])):
+                    z = complex(corr[i, j])
+                    if np.isnan(z.real):
+                        continue
+                    ref = complex(np.trace(b @ ev(a @ ev(rho0, t1 - start), t2 - t1)))
+                    if not abs(z - ref) < 1e-7:
+                        report("value-offgrid",
+                               "misaligned-value:off-grid float times_a=%r times_b=%r start=%s" % (ta, tb, start),
+                               {"api": "compute_correlations", "start_time": start, "dt": dt,
+                                "times_a": repr(ta), "times_b": repr(tb),
+                                "returned_times": [float(t1), float(t2)], "got": repr(z),
+                                "exact_at_the_returned_times": repr(ref)})
+                        return
+
+
+def oracle_tdep_start(report):
+    """explicitly time-dependent system with start_time != 0: H(t) = f(t) H0 commutes with itself,
+    so the exact n-time correlation is known in closed form; identity environment"""
+    import oqupy
+    from scipy.linalg import expm
+    from . import oq
+    n, dt, w = 5, 0.1, 2.0
+    h0 = np.array([[0.9, 0.4 - 0.7j], [0.4 + 0.7j, -0.5]])
+    f = lambda t: 1.0 + 0.8 * np.sin(w * t)                                          # noqa: E731
+    fint = lambda a, b: (b - a) - 0.8 / w * (np.cos(w * b) - np.cos(w * a))          # noqa: E731
+    ops = [np.array([[0.3 + 0.1j, -0.7j], [0.5, 0.2 - 0.4j]]), np.array([[0, 0], [1, 0]], dtype=complex),
+           np.array([[0, -1j], [1j, 0]], dtype=complex)]
+    rho0 = np.array([[0.6, 0.1 + 0.25j], [0.1 - 0.25j, 0.4]])
+    system = oqupy.TimeDependentSystem(lambda t: f(t) * h0)
+    pt = oq.identity_pt(n, 2, dt)
+
+    def exact(steps, orders, start):
+        x, at = rho0, start
+        for k, st in enumerate(steps):
+            t = start + st * dt
+            u = expm(-1j * h0 * fint(at, t))
+            x, at = u @ x @ u.conj().T, t
+            if k == len(steps) - 1:
+                return np.trace(ops[k] @ x)
+            x = ops[k] @ x if orders[k] == "left" else x @ ops[k]
+    for start in (0.7, -1.3, 0.0):
+        for orders in (["left", "left"], ["right", "left"], ["left", "right", "left"]):
+            k = len(orders)
+            times, corr = oqupy.compute_correlations_nt(
+                system=system, process_tensor=pt, operators=ops[:k], ops_times=[slice(0, n + 1)] * k,
+                ops_order=orders, initial_state=rho0, start_time=start, dt=dt, progress_type="silent")
+            for iota in itertools.product(range(n + 1), repeat=k):
+                if any(iota[j] > iota[j + 1] for j in range(k - 1)):
+                    continue
+                z, ref = complex(corr[iota]), complex(exact(iota, orders, start))
+                if not abs(z - ref) < 1e-7:
+                    report("value-tdep-start",
+                           "nt-value:time-dependent system start_time=%s ops_order=%s" % (start, ",".join(orders)),
+                           {"api": "compute_correlations_nt", "system": "TimeDependentSystem H(t) = "
+                            "(1 + 0.8 sin 2t) H0", "start_time": start, "dt": dt, "steps": list(iota),
+                            "returned_times": [float(times[j][iota[j]]) for j in range(k)],
+                            "ops_order": orders, "got": repr(z), "exact": repr(ref),
+                            "process_tensor": "identity (SimpleProcessTensor)"})
+                    return
+
+
 def search(res, rng=None, only=None):
     rng = rng or random.Random(res.seed)
     rig = Rig()
@@ -1305,6 +1394,8 @@ def search(res, rng=None, only=None):
     # (4)-(5) bath correlations, (6) values against an exact joint evolution
     search_bath(report, rng)
     search_values(report)
+    oracle_tdep_start(report)
+    oracle_offgrid(report)
     # (3) the time-ordering test on the earlier operators must be exact for long process tensors
     big = 100001
     pt = rig.oq.long_trivial_pt(big, dt=0.1)
